@@ -1,6 +1,7 @@
 import VarproModel.Props.C12
 import Mathlib.Data.Matrix.Mul
 import Mathlib.LinearAlgebra.Matrix.DotProduct
+import Mathlib.Algebra.Order.BigOperators.Ring.Finset
 /-!
 # C13 — covariance and correlation are those of the full parameter vector (c, α)
 
@@ -105,5 +106,59 @@ theorem c13_corr (o : XOps K) (s : Stats n m p K) (hsq : ∀ v : K, 0 < v → o.
   · intro hpos
     simp only [Stats.correlation, Mat.get_ofFn]
     rw [hsq _ hpos, div_self (ne_of_gt hpos)]
+
+/-- Cauchy–Schwarz for the covariance: `C_ij² ≤ C_ii·C_jj` (the inverse of `HᵀH` is a Gram matrix). -/
+theorem c13_cov_cauchy_schwarz {d : Nat} (H : Matrix (Fin n) (Fin d) K) (B : Matrix (Fin d) (Fin d) K) (chi2 : K)
+    (h1 : (Hᵀ * H) * B = 1) (h2 : B * (Hᵀ * H) = 1) (i j : Fin d) :
+    ((chi2 • B) i j) ^ 2 ≤ (chi2 • B) i i * (chi2 • B) j j := by
+  have hA : (Hᵀ * H)ᵀ = Hᵀ * H := by simp [Matrix.transpose_mul]
+  have hBt := inv_symm _ _ hA h1 h2
+  have hgram : B = (H * B)ᵀ * (H * B) := by
+    rw [Matrix.transpose_mul, hBt, Matrix.mul_assoc, ← Matrix.mul_assoc Hᵀ, h1, Matrix.mul_one]
+  have hent : ∀ a b, B a b = ∑ k, (H * B) k a * (H * B) k b := by
+    intro a b
+    conv_lhs => rw [hgram]
+    rw [Matrix.mul_apply]
+    simp only [Matrix.transpose_apply]
+  have hcs := Finset.sum_mul_sq_le_sq_mul_sq Finset.univ (fun k => (H * B) k i) (fun k => (H * B) k j)
+  have hii : B i i = ∑ k, (H * B) k i ^ 2 := by rw [hent]; simp [sq]
+  have hjj : B j j = ∑ k, (H * B) k j ^ 2 := by rw [hent]; simp [sq]
+  have hB : B i j ^ 2 ≤ B i i * B j j := by rw [hii, hjj, hent]; exact hcs
+  simp only [Matrix.smul_apply, smul_eq_mul]
+  calc (chi2 * B i j) ^ 2 = chi2 ^ 2 * B i j ^ 2 := by ring
+    _ ≤ chi2 ^ 2 * (B i i * B j j) := mul_le_mul_of_nonneg_left hB (sq_nonneg _)
+    _ = chi2 * B i i * (chi2 * B j j) := by ring
+
+/-- **c13_corr_bound**: every correlation coefficient lies in `[−1, 1]` whenever both variances are
+positive (with a zero variance the Rust code divides by zero and reports NaN/∞ – floating-point
+behaviour outside the model). -/
+theorem c13_corr_bound {d : Nat} (sqrt : K → K) (C : Matrix (Fin d) (Fin d) K)
+    (hsqrt : ∀ v : K, 0 ≤ v → sqrt v * sqrt v = v) (hsn : ∀ v : K, 0 ≤ sqrt v)
+    (hcs : ∀ i j, (C i j) ^ 2 ≤ C i i * C j j) (i j : Fin d) (hi : 0 < C i i) (hj : 0 < C j j) :
+    |C i j / sqrt (C i i * C j j)| ≤ 1 := by
+  have hpos : 0 < C i i * C j j := mul_pos hi hj
+  have hs := hsqrt _ hpos.le
+  have hspos : 0 < sqrt (C i i * C j j) := by
+    rcases (hsn (C i i * C j j)).lt_or_eq with h | h
+    · exact h
+    · rw [← h, mul_zero] at hs; exact absurd hs.symm (ne_of_gt hpos)
+  have hsq : C i j ^ 2 ≤ sqrt (C i i * C j j) ^ 2 := by rw [sq (sqrt _), hs]; exact hcs i j
+  rw [abs_div, abs_of_pos hspos, div_le_one hspos]
+  exact abs_le_of_sq_le_sq hsq hspos.le
+
+/-- **c13_corr_in_range** (end to end): for the statistics of any successful computation, every
+correlation coefficient between two parameters of positive variance lies in `[−1, 1]`. -/
+theorem c13_corr_in_range (x : StatExt K) (o : XOps K) (st : U.State) (Yw : Mat n 1 K)
+    (w : Option (Vector K n)) (c : Mat m 1 K) (s : Stats n m p K)
+    (hinv : InvSpec x) (hsqrt : ∀ v : K, 0 ≤ v → o.sqrt v * o.sqrt v = v) (hsn : ∀ v : K, 0 ≤ o.sqrt v)
+    (hnat : ∀ k v, x.ofNat k = some v → v = (k : K))
+    (h : (tryCalculate x o U st Yw w c).2 = .ok s) (i j : Fin (m + p))
+    (hi : 0 < s.covariance.get i i) (hj : 0 < s.covariance.get j j) :
+    |(s.correlation o).get i j| ≤ 1 := by
+  obtain ⟨st1, J, B, _, h1, h2, hcov⟩ := c13_cov x o st Yw w c s hinv hsqrt hnat h
+  have hcs : ∀ a b, (s.covariance.toM a b) ^ 2 ≤ s.covariance.toM a a * s.covariance.toM b b := by
+    intro a b; rw [hcov]; exact c13_cov_cauchy_schwarz _ B s.reducedChi2 h1 h2 a b
+  have := c13_corr_bound o.sqrt s.covariance.toM hsqrt hsn hcs i j hi hj
+  simpa [Stats.correlation, Mat.toM] using this
 
 end Varpro
